@@ -553,3 +553,10 @@ def restart(vc):
     dyn.propagate(t0, tf, x0.copy(), scheduled_events=[burn])
     g = kind.get("g_at_restart")
     vc.ensure("O-C01-restart.burn-switch-cannot-refire", vc.And(len(starts) == 2, g is not None and g > 0))
+
+
+# an impulse that already fired is removed by pruning BEFORE the propagation job is built: the job construction contract (C10 truth_job: the submission carries the
+# queue as it is after pruning) is re-checked in this property's own run
+from pyvc.harness import share as _share  # noqa: E402
+from contracts import C10 as _C10  # noqa: E402,F401
+_share("C10", "truth_job", "C01")
